@@ -143,6 +143,20 @@ def check_ledger(res, name, src):
                                   {'ledger': name, 'clause': clause}, (len(printed), printed[:3]), (len(seen), seen[:3]))
             except Exception as ex:
                 res.violation(f'h13:print-crash:{type(ex).__name__}', 'PRINT FROM <qualifiers> executes', {'ledger': name, 'clause': clause}, f'{type(ex).__name__}: {ex}', 'text')
+        # (g) BALANCES and JOURNAL are the same period report as the SELECT under the same qualifiers (every qualifier reaches them)
+        try:
+            bal = {r[0]: r[1] for r in conn.execute(f'BALANCES FROM{clause}').fetchall()}
+            bal = {a: i for a, i in bal.items() if i is not None and not i.is_empty()}
+            if bal != totals:
+                a = next((x for x in sorted(set(bal) | set(totals)) if bal.get(x) != totals.get(x)), None)
+                res.violation('h13:balances-period', 'BALANCES FROM <qualifiers> totals the postings of the same period report as SELECT FROM <qualifiers>',
+                              {'ledger': name, 'clause': clause, 'account': a}, bal.get(a), totals.get(a))
+            jr = [(r[0], r[4], r[5]) for r in conn.execute(f'JOURNAL FROM{clause}').fetchall()]
+            if jr != [(r[1], r[2], r[3]) for r in rows]:
+                res.violation('h13:journal-period', 'JOURNAL FROM <qualifiers> lists the postings of the same period report as SELECT FROM <qualifiers>',
+                              {'ledger': name, 'clause': clause}, len(jr), len(rows))
+        except Exception as ex:
+            res.violation(f'h13:statement-crash:{type(ex).__name__}', 'BALANCES / JOURNAL FROM <qualifiers> execute', {'ledger': name, 'clause': clause}, f'{type(ex).__name__}: {ex}', 'rows')
         # (e) clauses apply independently of the filter expression
         for expr, fn in (("year = 2020", lambda r: r[1].year == 2020), ("account ~ 'Assets'", lambda r: 'Assets' in r[2])):
             q2 = f'SELECT id, date, account, position, weight FROM {expr}{clause}'
